@@ -235,17 +235,17 @@ def run_units(units, ctx):
 
 
 def replay(case):
-    """Re-run a recorded case (spec, n) under 20 perturbation seeds, or a fault job 5 times."""
+    """Re-run a recorded case (spec, n) under 8 perturbation seeds, or a fault job 3 times."""
     tmpdir = tempfile.mkdtemp(prefix='c16r-')
     res = Result()
     try:
         if 'fault_job' in case:
-            for k in range(5):
+            for k in range(3):
                 job = dict(case['fault_job'], pseed=case['fault_job']['pseed'] + k)
                 status, out = _spawn(job, 180, tmpdir)
                 classify_fault(job, status, out, res)
             return res.violations
-        pseeds = [case['pseed'] + k for k in range(20)]
+        pseeds = [case["pseed"] + k for k in range(8)]
         job = dict(mode='batch', cases=[dict(case['spec'], ns=[case['n']], pseeds=pseeds)], deadline=time.time() + 600)
         status, out = _spawn(job, 600, tmpdir)
         if status == 'ok':
